@@ -17,7 +17,7 @@ import (
 	"github.com/trustbloc/sidetree-core-go/pkg/docutil"
 )
 
-const jsonPatchAddTemplate = `{ "op": "add", "path": "/%s", "value": %s }`
+const jsonPatchAddTemplate = `{ "op": "add", "path": %s, "value": %s }`
 
 // Action defines action of document patch.
 type Action string
@@ -119,7 +119,13 @@ func PatchesFromDocument(doc string) ([]Patch, error) {
 		case document.AlsoKnownAs:
 			docPatch, err = NewAddAlsoKnownAs(string(jsonBytes))
 		default:
-			jsonPatches = append(jsonPatches, fmt.Sprintf(jsonPatchAddTemplate, key, string(jsonBytes)))
+			// the member name goes into a JSON string: quotes, backslashes and control characters have to be escaped
+			var path []byte
+
+			path, err = json.Marshal("/" + key)
+			if err == nil {
+				jsonPatches = append(jsonPatches, fmt.Sprintf(jsonPatchAddTemplate, string(path), string(jsonBytes)))
+			}
 		}
 
 		if err != nil {
